@@ -136,11 +136,16 @@ def exact_probs(spec):
         else:
             t = torch.tensor([float(F(x)) for x in th], dtype=torch.float64)
             pi = [F(x) for x in torch.sigmoid(t).tolist()]
-            s = [p * (1 - p) for p in pi]
+            # 1 - sigmoid(l) = sigmoid(-l) taken from torch as well: at saturated logits (|l| ~ 20)
+            # the float `1 - sigmoid(l)` has lost half its digits, torch's log_prob has not
+            qi = [F(x) for x in torch.sigmoid(-t).tolist()]
+            s = [p * q for p, q in zip(pi, qi)]
+        if par == "probs":
+            qi = [1 - p for p in pi]
         P, dP = [], []
         for i in range(2 ** n):
             bits = [(i >> j) & 1 for j in range(n)]
-            fac = [pi[j] if bits[j] else 1 - pi[j] for j in range(n)]
+            fac = [pi[j] if bits[j] else qi[j] for j in range(n)]
             pr = Fr(1)
             for x in fac:
                 pr *= x
